@@ -174,11 +174,11 @@ func reuseEval(c *Ctx, m string, cur evalStep, fresh string) {
 	delete(sharedCalc, m) // start over with a clean instance
 	if min := shrinkHist(hist, fresh, func(h []evalStep) string { return evalSeq(m, h) }); min != nil {
 		two := evalSeq(m, min)
-		c.fail(Failure{Kind: "oracle", Op: evalSeqOp(m, min), Impl: two, Spec: fresh,
+		c.fail(Failure{Kind: "oracle", Op: evalSeqOp(cur.mgr, min), Impl: two, Spec: fresh,
 			Note: fmt.Sprintf("a calculator that evaluated %d other expression(s) before (the last %q) gives %s for %q; a new calculator gives %s", len(min)-1, min[len(min)-2].expr, two, cur.expr, fresh)})
 		return
 	}
-	c.fail(Failure{Kind: "oracle", Op: strings.TrimSpace(fmt.Sprintf("evalx %s %s ; %s", m, strRunes(cur.expr), bindsStr(cur.binds))), Impl: got, Spec: fresh,
+	c.fail(Failure{Kind: "oracle", Op: strings.TrimSpace(fmt.Sprintf("evalx %s %s ; %s", cur.mgr, strRunes(cur.expr), bindsStr(cur.binds))), Impl: got, Spec: fresh,
 		Note: fmt.Sprintf("a calculator reused for %d evaluations gives %s for %q, a new calculator gives %s (not reproduced when the history is replayed)", len(hist), got, cur.expr, fresh)})
 }
 
